@@ -24,6 +24,10 @@ SRCS = {
     'tree-opts': '<dtml-tree root branches_expr="kids()" sort=tpId reverse header=hd footer=ft nowrap=1 prefix=tp>'
                  'R:<dtml-var tpId>;</dtml-tree>|<dtml-var probe>',
 }
+# the same call with a client: none, one object, a tuple ("path") of 0..3 objects -- every client is one frame to pop
+_CLIENT_SRC = '<dtml-var nid>|<dtml-in outer><dtml-var f1><dtml-var tpId></dtml-in>|<dtml-with o><dtml-var f1></dtml-with>|<dtml-var probe>'
+for _k in ('0', '1', '1t', '2', '3'):
+    SRCS['clients-' + _k] = _CLIENT_SRC
 MODES = [{}, {'expand_all': 1}, {'collapse_all': 1}, 'cookie', 'click']
 
 
@@ -147,8 +151,13 @@ def run(src_name, mode, at, kind):
     Ctl.n, Ctl.at, Ctl.kind = 0, at, kind
     _rec.update(on=True, root=md, ev=[{'e': 'enter', 'level': level0}], next=1)
     try:
+        client = None
+        if src_name.startswith('clients-'):
+            k = src_name.split('-')[1]
+            objs = [Node('c1'), Node('c2'), Node('c3')][:int(k[0])]
+            client = objs[0] if k == '1' else tuple(objs)
         try:
-            out = t(None, md)
+            out = t(client, md)
             how = 'ok'
         except BaseException as e:  # noqa
             out = '%s: %s' % (type(e).__name__, str(e)[:60])
